@@ -49,6 +49,10 @@ class Failure(Exception):
   """listed in failure_exceptions"""
 
 
+class SubFailure(Failure):
+  """not listed in failure_exceptions itself: its base class is"""
+
+
 class BadStr(Exception):
 
   def __str__(self):
@@ -174,7 +178,8 @@ def build_phase(node, ctx, htf, diag_enum, diagnoses_lib, plugs=None):
         raise SystemExit(3)
       raise RuntimeError('phase %d failed' % pid)
     if raw == 'fexc':
-      raise Failure('phase %d failed (failure exception)' % pid)
+      # (every other phase raises a subclass of the listed failure exception)
+      raise (Failure if pid % 2 else SubFailure)('phase %d failed (failure exception)' % pid)
     if raw == 'timeout':
       while True:
         time.sleep(0.002)
@@ -256,6 +261,10 @@ def build_phase(node, ctx, htf, diag_enum, diagnoses_lib, plugs=None):
       ms.append(htf.Measurement(name).with_dimensions('x').with_validator(_dim_validator))
   if ms:
     phase = htf.measures(*ms)(phase)
+    if pid % 3 == 2 and not node.get('mon'):
+      # the phase as bound by a station with with_args (a setting the function does not take): the copy keeps the
+      # measurements with ALL their validators
+      phase = phase.with_args(station_setting=pid)
   diagnosers = []
   for j in range(ndiag):
     def run(phase_record, j=j):
